@@ -16,13 +16,7 @@ package lg
 //@   props C06 C05
 //@   requires l != nil
 //@   modifies
-//@   keeps r5IResolves, r5IResolvedOpts, r5IResolvedFlags
+//@   keeps r5IResolves, r5IResolvedOpts, r5IResolvedFlags, r5JLogOutputs, r5JLogOutputOn, r5JLogOutputDepth
 //@   nochan
 
-// (the Logger behind it is a *log.Logger or the NilLogger: no modelled state - `benign (lg.Logger).Output` in r5I.spec)
-//@ func Logf(logger Logger, cfgLevel LogLevel, msgLevel LogLevel, f string, args ...interface{})
-//@   props C06 C05
-//@   requires logger != nil
-//@   modifies
-//@   keeps r5IResolves, r5IResolvedOpts, r5IResolvedFlags
-//@   nochan
+// (Logf: contract in zz_contracts_r5J_verif.go; it also keeps this area's free ghosts)
